@@ -95,7 +95,7 @@ def run(ctx):
     ctx.drv(["table", "-in", rows_path, "-out", out, "-mutants", str(n_mut)], cmd_name=DRV, timeout=2400)
     r = json.load(open(out))
     outd = ctx.path("idem_deep.json")
-    ctx.drv(["deep", "-out", outd, "-forms", "[,(,{,cast,call,udt" if thorough else "[,(,{"], cmd_name=DRV, timeout=2400)
+    ctx.drv(["deep", "-out", outd, "-forms", "[,(,{,cast,call,udt,casttype" if thorough else "[,(,{,casttype"], cmd_name=DRV, timeout=2400)
     deep = json.load(open(outd))["probes"]
 
     # 4. vacuity guards (machinery, not verdicts)
